@@ -125,3 +125,20 @@ pub(crate) fn stub_string_push_str_nothing(_s: &mut String, _t: &str) {}
 pub(crate) fn stub_str_repeat_empty(_s: &str, _n: usize) -> String {
     String::new()
 }
+
+/// Stub for `core::str::count::count_chars` (behind `str::chars().count()`): the same function - the number of
+/// bytes that are not UTF-8 continuation bytes - as one plain loop. The library version chooses between a general
+/// loop and a word-at-a-time fast path on `len < 32`, and symbolic execution walks the fast path's alignment
+/// arithmetic even for short strings.
+pub(crate) fn stub_count_chars(s: &str) -> usize {
+    let b = s.as_bytes();
+    let mut n = 0;
+    let mut i = 0;
+    while i < b.len() {
+        if (b[i] as i8) >= -0x40 {
+            n += 1;
+        }
+        i += 1;
+    }
+    n
+}
